@@ -1,6 +1,145 @@
-(* C17 — a linked view is an exact, self-healing picture of the selected jobs. *)
-From SV Require Import Base View CorrC17 C17Proofs.
+(* C17 — a linked view is an exact, self-healing picture of the selected jobs.
+   This file only states theorems; proofs live in SV.C17Proofs / ViewFS / ViewTrie / ViewThm / ViewThm2 /
+   C17Witness.  The model is SV.View (create_linked_view and all helpers of signac/linked_view.py, the
+   leaf/node check of import_export.py as written); the job -> path map is an input of the model. *)
+From SV Require Import Base View CorrC17 C17Proofs ViewFS ViewTrie ViewThm ViewThm2 C17Witness.
 
-Theorem C17_placeholder : split_sep (join_sep [s_dot; s_job]) = [s_dot; s_job].
-Proof. exact split_join_demo. Qed.
-Print Assumptions C17_placeholder.
+(* ---------------------------------------------------------------- rejected inputs *)
+(* view_reject_unchanged: whatever the guards reject (separator in a top level key/value, a failing
+   path function, the leaf/node check) leaves the whole tree untouched — for every tree. *)
+Theorem C17_view_reject_unchanged : forall hint s c,
+  guard_rejects c ->
+  snd (create_linked_view hint s c) = s /\ exists e, fst (create_linked_view hint s c) = Err e.
+Proof. exact reject_unchanged. Qed.
+Print Assumptions C17_view_reject_unchanged.
+
+Theorem C17_separator_rejected : forall c,
+  existsb (fun j => existsb has_sep (j_items j)) (c_jobs c) = true -> make_links c = Err ERuntimeError.
+Proof. exact sep_rejected. Qed.
+Print Assumptions C17_separator_rejected.
+
+(* an error that comes with a changed tree can only be an OSError out of _update_view *)
+Theorem C17_changed_error_is_oserror : forall hint s c e,
+  fst (create_linked_view hint s c) = Err e -> snd (create_linked_view hint s c) <> s -> e = EOSError.
+Proof. exact error_changed_is_oserror. Qed.
+Print Assumptions C17_changed_error_is_oserror.
+
+(* Full statement wanted: "check_structure [] ks = true -> no key is a proper prefix of another key".
+   It is FALSE of the code as written (order dependent, DESIGN F15).  Proved: the half the code does
+   guarantee — no key is a proper prefix of an EARLIER key. *)
+Theorem C17_leafnode_check_partial : forall ks,
+  check_structure [] ks = true ->
+  forall l1 k l2 k', ks = l1 ++ k :: l2 -> In k' l1 -> k <> [] -> proper_prefix k k' = false.
+Proof. exact check_structure_sound. Qed.
+Print Assumptions C17_leafnode_check_partial.
+
+Theorem C17_leafnode_check_refuted :
+  let k1 := [s_a; s_job] in let k2 := [s_a; s_job; s_b; s_job] in
+  check_structure [] [k1; k2] = true /\ check_structure [] [k2; k1] = false /\ proper_prefix k1 k2 = true.
+Proof. exact leafnode_order_dependent. Qed.
+Print Assumptions C17_leafnode_check_refuted.
+
+(* the defect reaches the file system: the accepted order creates the second link THROUGH the first,
+   inside the other job's directory; the reverse order of the same input is rejected *)
+Theorem C17_view_reject_unchanged_refuted :
+  let c := mkcall [mkjob s_j1 pf_a6; mkjob s_j2 pf_a6job5] in
+  let '(r1, (w1, _)) := run [] world0 c in
+  is_ok r1 = true /\ get world0 [s_p; s_j1; s_5] = None /\
+  get w1 [s_p; s_j1; s_5; s_job] = Some (Lnk (join_sep [s_dotdot; s_dotdot; s_dotdot; s_dotdot; s_dotdot; s_p; s_j2])) /\
+  fst (run [] world0 (mkcall [mkjob s_j2 pf_a6job5; mkjob s_j1 pf_a6])) = Err ERuntimeError.
+Proof. exact leafnode_accepted_pollutes. Qed.
+Print Assumptions C17_view_reject_unchanged_refuted.
+
+(* ---------------------------------------------------------------- the dead-branch analysis, for all inputs *)
+(* a branch is reported dead iff it is a node of the tree of existing paths and no key passes through it *)
+Theorem C17_dead_branches_exact : forall existing ks b,
+  In b (find_dead_branches (analysis_tree existing ks) []) <->
+  (is_nil b || any_prefix b existing) = true /\ any_prefix b ks = false.
+Proof. exact analysis_dead. Qed.
+Print Assumptions C17_dead_branches_exact.
+
+Theorem C17_dead_branches_nodup : forall existing ks,
+  NoDup (find_dead_branches (analysis_tree existing ks) []).
+Proof. exact analysis_dead_NoDup. Qed.
+Print Assumptions C17_dead_branches_nodup.
+
+(* ---------------------------------------------------------------- the from-scratch build is exact *)
+(* For every tree w, every plain absolute prefix P whose parent exists and that does not exist itself,
+   every specification sp (distinct token lists; tokens plain file names other than the leaf name, so
+   no "", ".", "..", "job", separator), every tie-break hint and cwd: _update_view succeeds and below P
+   there is exactly: one link T/job per entry (T, dir) with the relative target the code computes, the
+   directories leading to the links, nothing else; every path not below P keeps its kind (nothing else
+   is touched); at least one operation is performed unless sp is empty. *)
+Theorem C17_view_exact_from_scratch : forall P (sp : spec) hint w n cwd,
+  P <> [] -> Forall plain P -> good_spec sp -> dirs_to w (removelast P) -> get w P = None ->
+  exists w' k,
+    update_view hint (w, n) cwd (A P) (lk_of sp) = ok (w', (n + k)%N) /\
+    (sp <> [] -> (0 < k)%N) /\
+    (forall q, kind_at w' (P ++ q) = vk (negb (is_nil sp)) (map (placed P cwd) sp) q) /\
+    (forall r, is_prefix P r = false -> kind_at w' r = kind_at w r).
+Proof. exact from_scratch_exact. Qed.
+Print Assumptions C17_view_exact_from_scratch.
+
+(* one more link in an existing plain view: the step every update is made of *)
+Theorem C17_make_link_step : forall P, P <> [] -> Forall plain P ->
+  forall w ex cur T src n cwd,
+  Inv P w ex cur -> Forall tok T -> ~ In T (map fst cur) ->
+  exists w' k,
+    make_link (w, n) cwd src (A ((P ++ T) ++ [s_job])) = ok (w', N.succ (n + k)) /\
+    Inv P w' true (cur ++ [(T, src)]) /\
+    (forall r, is_prefix P r = false -> kind_at w' r = kind_at w r).
+Proof. exact link_step. Qed.
+Print Assumptions C17_make_link_step.
+
+(* ---------------------------------------------------------------- running twice *)
+(* Full statement wanted: the second run performs zero operations.  FALSE for a view whose link sits
+   at the root of the prefix (one selected job): the scan yields "./job", the key is "job". *)
+Theorem C17_view_idempotent_refuted :
+  let c := mkcall [mkjob s_j1 []] in
+  let '(r1, (w1, n1)) := run [] world0 c in
+  let '(r2, (w2, n2)) := run [] w1 c in
+  is_ok r1 = true /\ is_ok r2 = true /\ w2 = w1 /\ n2 = 2%N.
+Proof. exact single_job_not_noop. Qed.
+Print Assumptions C17_view_idempotent_refuted.
+
+(* ---------------------------------------------------------------- one link per selected job *)
+Theorem C17_one_link_per_job_refuted_duplicates :
+  let c := mkcall [mkjob s_j1 pf_a6; mkjob s_j2 pf_a6] in
+  exists lk w n, run [] world0 c = (Ok lk, (w, n)) /\ length lk = 1%nat /\ length (c_jobs c) = 2%nat.
+Proof. exact duplicate_paths_merge. Qed.
+Print Assumptions C17_one_link_per_job_refuted_duplicates.
+
+Theorem C17_one_link_per_job_refuted_empty_selection :
+  let c := mkcall [] in
+  exists lk w n, run [] world0 c = (Ok lk, (w, n)) /\ c_jobs c = [] /\
+                 get w [s_v; s_job] = Some (Lnk (join_sep [s_dotdot; s_p; s_j2])).
+Proof. exact empty_selection_links_a_job. Qed.
+Print Assumptions C17_one_link_per_job_refuted_empty_selection.
+
+Theorem C17_view_contained_refuted_absolute_key :
+  let c := mkcall [mkjob s_j1 pf_abs; mkjob s_j2 pf_a6] in
+  let '(r1, (w1, _)) := run [] world0 c in
+  is_ok r1 = true /\ get w1 [[120%N]; s_job] <> None /\ get w1 [s_v; [120%N]] = None.
+Proof. exact absolute_key_escapes. Qed.
+Print Assumptions C17_view_contained_refuted_absolute_key.
+
+(* ---------------------------------------------------------------- licence for the correspondence step *)
+(* If the implementation's observation agrees with the model on a case, the oracle's verdict on the
+   implementation's observation IS its verdict on what the model produces for that input. *)
+Theorem C17_model_holds : forall k,
+  mismatch_C17 k = false -> holds_C17 k = holds_C17 (model_case k).
+Proof. exact model_agreement_transfers. Qed.
+Print Assumptions C17_model_holds.
+
+(* non-vacuity: the hypotheses of the from-scratch theorem are satisfiable by a concrete world *)
+Example C17_example_hypotheses :
+  let P := [s_v] in let sp : spec := [([s_a; s_6], [s_p; s_j1]); ([s_a; s_5], [s_p; s_j2])] in
+  P <> [] /\ Forall plain P /\ good_spec sp /\ dirs_to world0 (removelast P) /\ get world0 P = None.
+Proof.
+  simpl. split; [discriminate|]. split; [repeat constructor|]. split.
+  - split.
+    + repeat constructor; simpl; intuition discriminate.
+    + intros e [<-|[<-|[]]]; simpl; repeat constructor; try discriminate;
+        unfold nosep, SEP; simpl; intuition discriminate.
+  - split; [|reflexivity]. intros d1 d2 E. symmetry in E. apply app_eq_nil in E. destruct E as [-> _]. reflexivity.
+Qed.
